@@ -774,7 +774,7 @@ Definition judge_C18 (c : c18case) : bool * bool * bool :=
   (agree, prop, match cc_parse (ed_check c) with [] => false | _ => true end).
 
 (* ======================= C19: the language server ======================= *)
-From NS Require Import DocStore.
+From NS Require Import DocStore Navigation.
 
 Inductive lreq :=
 | LOpen (uri : string) (tid : nat)
@@ -967,7 +967,9 @@ Definition judge_C19 (c : c19case) : bool * bool * bool :=
   (list_eqb lobs_eqb (lsp_impl (lc_texts c) [] reqs) obs,
    list_eqb lobs_eqb (lsp_spec (lc_texts c) [] reqs) obs
    && forallb (fun o => match o with LPanic => false | _ => true end) obs
-   && nav_all (map (fun t : program * list diag => match snd t with [] => Some (nav_info_of (fst t)) | _ => None end) (lc_texts c)) [] (lc_history c),
+   && nav_all (map (fun t : program * list diag => match snd t with [] => Some (nav_info_of (fst t)) | _ => None end) (lc_texts c)) [] (lc_history c)
+   (* the hypothesis of C19_navigation_exact: in a tree parsed without error every node's range encloses the targets below it *)
+   && forallb (fun t : program * list diag => match snd t with [] => nested (fst t) | _ => true end) (lc_texts c),
    negb (Nat.eqb (List.length (lc_history c)) 0)).
 
 (* ======================= C20: the command line ======================= *)
